@@ -650,3 +650,25 @@ func (c *c10Run) orderFixed(spec *c10Order) {
 			c10Case{Kind: "order", Order: spec})
 	}
 }
+
+// orderLargeLists: orders whose allow / deny list is as long as the RPC layer lets it be (no limit there): the stored
+// TLV value crosses 65535 bytes at 1986 node ids.  Submitted to a real database, read back, updated and re-read.
+func (c *c10Run) orderLargeLists() {
+	for _, n := range []int{1985, 1986, 2500} {
+		for _, bid := range []bool{false, true} {
+			spec := c.g.orderSpec(bid)
+			spec.Ticket = nil
+			ids := make([]string, n)
+			for i := range ids {
+				ids[i] = c.g.hexN(33)
+			}
+			if bid {
+				spec.Allowed, spec.NotAllowed = nil, ids
+			} else {
+				spec.Allowed, spec.NotAllowed = ids, nil
+			}
+			c.r.Count("order/large-list")
+			c.orderFixed(spec)
+		}
+	}
+}
